@@ -1,11 +1,11 @@
 package main
 
 import (
-	"go/types"
-	"math/big"
 	"fmt"
 	"go/ast"
 	"go/token"
+	"go/types"
+	"math/big"
 	"regexp"
 	"sort"
 	"strings"
@@ -724,7 +724,9 @@ func runC22(c *Ctx) {
 				}
 			}
 			reachedDecode := false
-			reached, _ := de.Reach(ifs.Cond, nil, func(b *cfgBlock, si int) bool { return si == 1 && len(b.Nodes) > 0 && b.Nodes[len(b.Nodes)-1] == ast.Node(ifs.Cond) })
+			reached, _ := de.Reach(ifs.Cond, nil, func(b *cfgBlock, si int) bool {
+				return si == 1 && len(b.Nodes) > 0 && b.Nodes[len(b.Nodes)-1] == ast.Node(ifs.Cond)
+			})
 			for _, m := range reached {
 				for _, u := range um {
 					if containsNode(m, u) {
@@ -1305,7 +1307,41 @@ func runC24(c *Ctx) {
 			okRb = false
 		}
 	}
-	c.Ob("migration-tx", "applyMigration#rollback-on-error", am.Decl.Pos(), okRb, "a failing migration is rolled back (deferred, when err != nil)")
+	if begins := methodCalls(am, false, "Begin"); !okRb && len(begins) == 1 && len(am.Lits()) == 0 {
+		// explicit form: no exit is reachable from Begin without passing a Rollback, except
+		// the success return, Begin's own failure and a failed Commit (the transaction is
+		// finished either way)
+		_, exits := am.Reach(begins[0], func(n ast.Node) bool {
+			found := false
+			ast.Inspect(n, func(m ast.Node) bool {
+				if call, ok := m.(*ast.CallExpr); ok {
+					if se, ok := call.Fun.(*ast.SelectorExpr); ok && se.Sel.Name == "Rollback" && strings.HasSuffix(typeStr(am, se.X), "sql.Tx") {
+						found = true
+					}
+				}
+				return !found
+			})
+			return found
+		}, nil)
+		okRb = len(exits) > 0
+		for _, ex := range exits {
+			if ex.Ret == nil || len(ex.Ret.Results) != 1 {
+				okRb = false
+				continue
+			}
+			if isNilIdent(am.Info, ex.Ret.Results[0]) {
+				continue
+			}
+			fs := am.FactsAt(ex.Ret)
+			if fs.Has(func(fa *Fact) bool {
+				return fa.Kind == FCallFail && (fa.Call == begins[0] || isMethodCall(fa.Call, "Commit"))
+			}) {
+				continue
+			}
+			okRb = false
+		}
+	}
+	c.Ob("migration-tx", "applyMigration#rollback-on-error", am.Decl.Pos(), okRb, "a failing migration is rolled back (deferred when err != nil, or explicitly before every failing exit)")
 	for _, cm := range methodCalls(am, false, "Commit") {
 		fs := am.FactsAt(cm)
 		ok := len(bump) == 1 && fs.Has(func(fa *Fact) bool { return fa.Kind == FCallOK && fa.Call == bump[0] })
@@ -1382,4 +1418,12 @@ func applyAfterAppend(c *Ctx, rule string) {
 		})
 		c.Ob(rule, "Start#apply-only-after-append-ok", call.Pos(), ok, "the writer applies a mutation to memory only after appendLog of that mutation succeeded; a mutation applied without a log record does not survive a restart")
 	}
+}
+
+func isMethodCall(call *ast.CallExpr, name string) bool {
+	if call == nil {
+		return false
+	}
+	se, ok := call.Fun.(*ast.SelectorExpr)
+	return ok && se.Sel.Name == name
 }
